@@ -76,7 +76,11 @@ func (session *BasicHttpSubSession) Write(b []byte) {
 			PayloadLength: uint64(len(b)),
 			Masked:        false,
 		}
-		session.write(MakeWsFrameHeader(wsHeader))
+		// The frame header and its payload must reach the asynchronous write queue as ONE item.
+		// Queued separately, a queue that fills up between the two (slow or stalled consumer)
+		// drops one of them, and everything the consumer reads afterwards is mis-framed.
+		session.writev(net.Buffers{MakeWsFrameHeader(wsHeader), b})
+		return
 	}
 	session.write(b)
 }
@@ -137,4 +141,9 @@ func (session *BasicHttpSubSession) IsAlive() (readAlive, writeAlive bool) {
 func (session *BasicHttpSubSession) write(b []byte) {
 	// TODO(chef) handle write error
 	_, _ = session.conn.Write(b)
+}
+
+func (session *BasicHttpSubSession) writev(bs net.Buffers) {
+	// TODO(chef) handle write error
+	_, _ = session.conn.Writev(bs)
 }
